@@ -15,6 +15,7 @@
  */
 
 #include <unifex/v2/async_manual_reset_event.hpp>
+#include <unifex/detail/verif_hooks.hpp>
 
 namespace unifex::v2 {
 
@@ -29,8 +30,11 @@ void async_manual_reset_event::set() noexcept {
   // pop_front sets self=nullptr just before returning each
   // item, so try_remove from a concurrent stop callback can
   // still succeed on items not yet popped.
+  UNIFEX_VERIF_YIELD("event.v2.set_pop");
   while (auto* w = local.pop_front()) {
+    UNIFEX_VERIF_YIELD("event.v2.set_resume");
     w->resume_(w);
+    UNIFEX_VERIF_YIELD("event.v2.set_pop");
   }
 }
 
